@@ -78,11 +78,35 @@ func newRunner() (*runner, error) {
 
 const firstLine = 6
 
-func (r *runner) typecheck(pats []string) (*token.FileSet, *ast.File, *types.Info, *types.Package, error) {
+// every entry point of package regexp that takes a pattern (QuoteMeta: takes text that is not a pattern)
+type callKind struct {
+	name  string
+	stmt  string // statement with one %s for the quoted pattern
+	posix bool   // the site compiles with POSIX syntax and leftmost-longest semantics
+}
+
+var callKinds = []callKind{
+	{"regexp.Compile", "_, _ = regexp.Compile(%s)", false},
+	{"regexp.MustCompile", "_ = regexp.MustCompile(%s)", false},
+	{"regexp.CompilePOSIX", "_, _ = regexp.CompilePOSIX(%s)", true},
+	{"regexp.MustCompilePOSIX", "_ = regexp.MustCompilePOSIX(%s)", true},
+	{"regexp.Match", "_, _ = regexp.Match(%s, nil)", false},
+	{"regexp.MatchString", "_, _ = regexp.MatchString(%s, \"\")", false},
+	{"regexp.MatchReader", "_, _ = regexp.MatchReader(%s, nil)", false},
+	{"regexp.QuoteMeta", "_ = regexp.QuoteMeta(%s)", false},
+}
+
+const kindMustCompile = 1
+
+func (r *runner) typecheck(pats []string, kinds ...int) (*token.FileSet, *ast.File, *types.Info, *types.Package, error) {
 	var b strings.Builder
 	b.WriteString("package p\n\nimport \"regexp\"\n\nfunc f() {\n")
-	for _, p := range pats {
-		fmt.Fprintf(&b, "\t_ = regexp.MustCompile(%s)\n", strconv.Quote(p))
+	for i, p := range pats {
+		k := kindMustCompile
+		if i < len(kinds) {
+			k = kinds[i]
+		}
+		b.WriteString("\t" + fmt.Sprintf(callKinds[k].stmt, strconv.Quote(p)) + "\n")
 	}
 	b.WriteString("}\n")
 	fset := token.NewFileSet()
@@ -116,7 +140,10 @@ func parseWarn(text, pat string) (string, bool) {
 
 // batch: a generated Go file with one regexp.MustCompile(<pattern>) per line, parsed and type-checked
 // for real, a fresh checker, Check. Returns the proposed rewrite per pattern ("" = no diagnostic).
-func (r *runner) batch(pats []string) ([]string, error) {
+func (r *runner) batch(pats []string) ([]string, error) { return r.batchKinds(pats, nil) }
+
+// batchKinds: the same with the pattern placed at the given kind of call site per line.
+func (r *runner) batchKinds(pats []string, kinds []int) ([]string, error) {
 	out := make([]string, len(pats))
 	const chunk = 1500
 	for lo := 0; lo < len(pats); lo += chunk {
@@ -124,7 +151,11 @@ func (r *runner) batch(pats []string) ([]string, error) {
 		if hi > len(pats) {
 			hi = len(pats)
 		}
-		fset, f, info, pkg, err := r.typecheck(pats[lo:hi])
+		var ks []int
+		if kinds != nil {
+			ks = kinds[lo:hi]
+		}
+		fset, f, info, pkg, err := r.typecheck(pats[lo:hi], ks...)
 		if err != nil {
 			return nil, err
 		}
@@ -554,11 +585,17 @@ func eqStrs(a, b []string) bool {
 // compareRegexps: both sides compiled with Go's regexp; NumSubexp, SubexpNames, and
 // FindStringSubmatchIndex on every subject of length <= maxLen over the alphabet. first: subjects to try first.
 func compareRegexps(before, after string, maxLen int, budget int, rng interface{ Intn(int) int }, first []string) (*diff, int) {
-	re1, err := regexp.Compile(before)
+	return compareRegexpsAt(regexp.Compile, before, after, maxLen, budget, rng, first)
+}
+
+// compareRegexpsAt: both sides compiled with the constructor of the call site (regexp.Compile or
+// regexp.CompilePOSIX, which also switches to leftmost-longest matching).
+func compareRegexpsAt(compile func(string) (*regexp.Regexp, error), before, after string, maxLen int, budget int, rng interface{ Intn(int) int }, first []string) (*diff, int) {
+	re1, err := compile(before)
 	if err != nil {
 		return nil, 0
 	}
-	re2, err := regexp.Compile(after)
+	re2, err := compile(after)
 	if err != nil {
 		return &diff{Kind: "compile", Before: "compiles", After: err.Error()}, 0
 	}
@@ -974,6 +1011,54 @@ func Run(tier string, seed int64, outDir string) *common.Meta {
 		meta.TieBroken = append(meta.TieBroken, "running the checker: "+err.Error())
 		return meta
 	}
+	// 2b. every other entry point of package regexp, on a sample of the patterns
+	type siteObs struct {
+		idx, kind int
+		rw        string
+	}
+	var sites []siteObs
+	{
+		var sp []string
+		var sk, si []int
+		for i, p := range pats {
+			if srcOf[i] != "testdata" && srcOf[i] != "corpus" && i%8 != 0 {
+				continue
+			}
+			for k := range callKinds {
+				if k == kindMustCompile {
+					continue
+				}
+				sp, sk, si = append(sp, p), append(sk, k), append(si, i)
+			}
+		}
+		srw, err := r.batchKinds(sp, sk)
+		if err != nil {
+			meta.TieBroken = append(meta.TieBroken, "running the checker at the other call sites: "+err.Error())
+			return meta
+		}
+		for j := range sp {
+			sites = append(sites, siteObs{si[j], sk[j], srw[j]})
+		}
+	}
+	reacting := map[int]bool{}
+	for i := range pats {
+		if rewrites[i] != "" {
+			reacting[kindMustCompile] = true
+		}
+	}
+	for _, so := range sites {
+		if so.rw != "" {
+			reacting[so.kind] = true
+		}
+	}
+	var reactingNames []string
+	for k, ck := range callKinds {
+		if reacting[k] {
+			reactingNames = append(reactingNames, ck.name)
+		}
+	}
+	meta.Distribution["call_kinds_with_diagnostics"] = reactingNames
+	meta.Distribution["call_site_runs"] = len(sites)
 	fastDiffers := 0
 	for i, p := range pats {
 		if i%7 == 0 && r.one(p) != rewrites[i] {
@@ -1045,10 +1130,12 @@ func Run(tier string, seed int64, outDir string) *common.Meta {
 	// 4. simplifier cases
 	hdr := `From GC Require Import Base Model_Regex Model_RegexSimplify Proofs_RegexSimplify Proofs_RegexWalk.
 Record case := { k_pat : string; k_tree : option sx; k_c1 : string; k_tree2 : option sx; k_obs : option string;
-                 k_tree3 : option sx; k_cert : bool; k_frag : bool }.
+                 k_tree3 : option sx; k_cert : bool; k_frag : bool; k_call : string }.
 Definition ostr_eqb (a b : option string) : bool :=
   match a, b with Some x, Some y => String.eqb x y | None, None => true | _, _ => false end.
 Definition case_ok (k : case) : bool :=
+  (* the checker reacts at the Perl-dialect constructors only; the rewrite does not depend on which of them *)
+  if negb (reacts (k_call k)) then match k_obs k with None => true | Some _ => false end else
   match k_tree k with
   | None => match k_obs k with None => true | Some _ => false end
   | Some t =>
@@ -1071,6 +1158,7 @@ Definition cases : list case := [
 	bodies := make([][]string, shards)
 	idx := make([][]string, shards)
 	nRewrites, nTwoPass := 0, 0
+	caseLine := make([][2]string, len(pats))
 	for i, p := range pats {
 		t := "None"
 		if parsed[i] {
@@ -1093,12 +1181,46 @@ Definition cases : list case := [
 		if tree3[i] != "" {
 			t3 = "(Some " + tree3[i] + ")"
 		}
-		bodies[sh] = append(bodies[sh], fmt.Sprintf("  {| k_pat := %s; k_tree := %s; k_c1 := %s; k_tree2 := %s; k_obs := %s; k_tree3 := %s; k_cert := %s; k_frag := %s |}",
-			coqfmt.Str(p), t, coqfmt.Str(c1[i]), t2, obs, t3, coqfmt.Bool(certified[i]), coqfmt.Bool(inFrag[i])))
+		bodies[sh] = append(bodies[sh], fmt.Sprintf("  {| k_pat := %s; k_tree := %s; k_c1 := %s; k_tree2 := %s; k_obs := %s; k_tree3 := %s; k_cert := %s; k_frag := %s; k_call := %s |}",
+			coqfmt.Str(p), t, coqfmt.Str(c1[i]), t2, obs, t3, coqfmt.Bool(certified[i]), coqfmt.Bool(inFrag[i]), coqfmt.Str(callKinds[kindMustCompile].name)))
+		caseLine[i] = [2]string{fmt.Sprintf("  {| k_pat := %s; k_tree := %s; k_c1 := %s; k_tree2 := %s; k_obs := ", coqfmt.Str(p), t, coqfmt.Str(c1[i]), t2),
+			fmt.Sprintf("; k_tree3 := %s; k_cert := %s; k_frag := %s; k_call := ", t3, coqfmt.Bool(certified[i]), coqfmt.Bool(inFrag[i]))}
 		idx[sh] = append(idx[sh], fmt.Sprintf("%s: %q => %q", srcOf[i], p, rewrites[i]))
 		if rewrites[i] != "" && i%211 == 0 {
 			meta.AddSample(map[string]interface{}{"pattern": p, "rewrite": rewrites[i], "model_pass1": c1[i], "stream": srcOf[i]})
 		}
+	}
+	// the other call sites: full data where the rewrite must be the same (regexp.Compile), the observation alone elsewhere
+	for j, so := range sites {
+		obs := "None"
+		if so.rw != "" {
+			obs = "(Some " + coqfmt.Str(so.rw) + ")"
+		}
+		var line string
+		if callKinds[so.kind].name == "regexp.Compile" || so.rw != "" {
+			if so.rw != rewrites[so.idx] && so.rw != "" {
+				// a different rewrite than at MustCompile: the certificate fields do not apply; compare the text only
+				line = fmt.Sprintf("  {| k_pat := %s; k_tree := None; k_c1 := \"\"; k_tree2 := None; k_obs := %s; k_tree3 := None; k_cert := false; k_frag := false; k_call := %s |}",
+					coqfmt.Str(pats[so.idx]), obs, coqfmt.Str(callKinds[so.kind].name))
+			} else {
+				line = caseLine[so.idx][0] + obs + caseLine[so.idx][1] + coqfmt.Str(callKinds[so.kind].name) + " |}"
+			}
+		} else {
+			line = fmt.Sprintf("  {| k_pat := %s; k_tree := None; k_c1 := \"\"; k_tree2 := None; k_obs := None; k_tree3 := None; k_cert := false; k_frag := false; k_call := %s |}",
+				coqfmt.Str(pats[so.idx]), coqfmt.Str(callKinds[so.kind].name))
+		}
+		sh := j % shards
+		bodies[sh] = append(bodies[sh], line)
+		idx[sh] = append(idx[sh], fmt.Sprintf("%s at %s: %q => %q", srcOf[so.idx], callKinds[so.kind].name, pats[so.idx], so.rw))
+	}
+	// the set of call kinds with at least one diagnostic against the model's list
+	{
+		body := "From GC Require Import Base Model_Regex Model_RegexSimplify.\nDefinition cases : list (list string) := [" + coqfmt.StrList(reactingNames) + "].\n" +
+			"Definition case_ok (obs : list string) : bool := list_eqb String.eqb obs reacting_calls.\n" +
+			"Definition M := Eval vm_compute in mismatches case_ok cases.\nPrint M.\n"
+		common.WriteFile(filepath.Join(outDir, "cases_c11_calls.v"), body)
+		common.WriteFile(filepath.Join(outDir, "cases_c11_calls.index.txt"), "call kinds with diagnostics: "+strings.Join(reactingNames, ", ")+"\n")
+		meta.CaseFiles = append(meta.CaseFiles, "cases_c11_calls.v")
 	}
 	for sh := 0; sh < shards; sh++ {
 		name := fmt.Sprintf("cases_c11_simp_%d", sh)
@@ -1270,6 +1392,25 @@ Definition cases : list case := [
 			})
 		}
 	}
+	// diagnostics at POSIX call sites are judged with that site's constructor
+	posixFailures := 0
+	for _, so := range sites {
+		if so.rw == "" || !callKinds[so.kind].posix {
+			continue
+		}
+		p := pats[so.idx]
+		d, n := compareRegexpsAt(regexp.CompilePOSIX, p, so.rw, maxLen, budget, orng, nil)
+		subjectsTried += n
+		if d == nil {
+			continue
+		}
+		posixFailures++
+		meta.Fail("C11/"+checkerName+"/posix-call-site",
+			fmt.Sprintf("at a %s call regexpSimplify rewrites `%s` as `%s`, which is not the same POSIX expression: %s", callKinds[so.kind].name, p, so.rw, describe(d)),
+			map[string]interface{}{"pattern": p, "rewrite": so.rw, "call": callKinds[so.kind].name, "difference": d,
+				"replay": callKinds[so.kind].name + "(" + strconv.Quote(p) + ") vs " + callKinds[so.kind].name + "(" + strconv.Quote(so.rw) + ")"})
+	}
+	meta.Distribution["oracle_failures_at_posix_call_sites"] = posixFailures
 	meta.Distribution["oracle_subjects_tried"] = subjectsTried
 	meta.Distribution["oracle_failing_rewrites"] = failing
 	meta.Distribution["rewrites_neither_certified_nor_refuted"] = uncertifiedClean
@@ -1302,7 +1443,7 @@ var corpus = []string{
 	`(?:(a))(?:(a))`, `(?:(a))(?:(a))*`, `a(?:{)2}`, `(?:(a)b){1}`, `(a|b){0,1}?`, `(?i)[k][K]`, `(?s).{1,}`, `(?U)a{0,}b`,
 	`(|a)*`, `(|a)+`, `(a*)*b`, `(a*)+b`, `(a|b*)*c`, `(?:a*|b)*?c`, `(a??)*b`, `^a$|\bb\B`, `(?m)^a$`, `\Qa.b\E+`,
 	`a{2,3}?b`, `(a){2}`, `(a)|b`, `(?P<n>a)(b)?`, `[^a]`, `[a-c]`, `[a-a]`, `[a-b]`, `x\&y`, `\.\.`, `a    b`,
-	`(?U:abc|ab)`, `(?U)xab|ab`, `aa|aaa`, `aaa|aa`, `❤❤|❤❤❤`, `xx|xxx`, `(?i:a)[b]`, `(?s:.)\.\.`, `(|a)*b{1}`, `a|`, `(?:s*?b*)(?:s*?b*)*`, `s(?i){0}`, `\0{1}0`, `[a-b-*]`, `(?:❤x|❤xb)`,
+	`^[0-9]+(\.[0-9]+)?$`, `[[:alpha:]][[:alnum:]]*x{0,1}`, `(a|b|c)[0-9][0-9]*`, `(?U:abc|ab)`, `(?U)xab|ab`, `aa|aaa`, `aaa|aa`, `❤❤|❤❤❤`, `xx|xxx`, `(?i:a)[b]`, `(?s:.)\.\.`, `(|a)*b{1}`, `a|`, `(?:s*?b*)(?:s*?b*)*`, `s(?i){0}`, `\0{1}0`, `[a-b-*]`, `(?:❤x|❤xb)`,
 	`(?:a*b*)*c`, `(a*?)*b`, `(?:a?)*?b`, `((a*)+)+`, `(a*|b)+?c`, `(a??b??)*c`, `(?:(a)|b*)*c`, `(a*){2,3}b`, `(a*){2,}b`, `(a?){3}`,
 	`(a|){2,}?b`, `(?:a|(b))+`, `(?:(a)|(b))*`, `(a)*?(b)??`, `(?i)k+|ſ`, `(?i)[^k]`, `(?i)\W`, `(?s).\n`, `(?m)^$`, `(?U)a+?`, `(?U:a*)a`,
 	`....`, `aaaaa`, `\d\d\d`, `[ab][ab]`, `(?:ab)(?:ab)`, `[^\s]`, `[^\S]`, `[0-9]`, `[^0-9]`, `(?:a|b|c)`,
@@ -1347,6 +1488,18 @@ var classItems = []string{"a", "b", "c", "x", "-", "]", "^", "[", ":", "+", ",",
 	// ranges between multi-byte runes, with different distances between their first bytes
 	"а-я", "а-в", "α-γ", "é-ë", "❤-❥", "一-三", "я", "é"}
 
+// every escapable ASCII punctuation rune, escaped ('_' is a word character: not escapable)
+var punctEscapes = func() []string {
+	var out []string
+	for r := rune(33); r < 127; r++ {
+		if r == '_' || r >= '0' && r <= '9' || r >= 'A' && r <= 'Z' || r >= 'a' && r <= 'z' {
+			continue
+		}
+		out = append(out, `\`+string(r))
+	}
+	return out
+}()
+
 func (g *gen) class() string {
 	var b strings.Builder
 	b.WriteString("[")
@@ -1358,6 +1511,11 @@ func (g *gen) class() string {
 		n = 1
 	}
 	for i := 0; i < n; i++ {
+		// an escaped punctuation rune at any position, the first included
+		if g.r.Intn(4) == 0 {
+			b.WriteString(g.pick(punctEscapes))
+			continue
+		}
 		b.WriteString(g.pick(classItems))
 	}
 	b.WriteString("]")
@@ -1373,6 +1531,9 @@ func (g *gen) atom(d int) string {
 	case k < 11:
 		return g.class()
 	case k < 13:
+		if g.r.Intn(3) == 0 {
+			return g.pick(punctEscapes)
+		}
 		return g.pick(escapes)
 	case k == 13 && d > 0:
 		return "(" + g.re(d-1) + ")"
